@@ -1,17 +1,30 @@
 #!/usr/bin/env python3
-"""merge_kf.py <branch> : resolve a merge conflict in known_findings.json by union (ours first; entries only in <branch> appended;
-findings that ours has deleted since the branch's base stay deleted: pass their ids after the branch name)."""
+"""merge_kf.py <branch> : three-way merge of known_findings.json by finding id / fixed line (base = merge-base of HEAD and <branch>):
+entries the branch added are added, entries the branch deleted are deleted, entries the branch changed replace ours."""
 import json, subprocess, sys
-br = sys.argv[1]; dropped = set(sys.argv[2:]) | {"C17-stale-query"}
-ours = json.loads(subprocess.run(["git", "show", "HEAD:known_findings.json"], capture_output=True, text=True).stdout)
-theirs = json.loads(subprocess.run(["git", "show", br + ":known_findings.json"], capture_output=True, text=True).stdout)
-ids = {f["id"] for f in ours["findings"]}
+br = sys.argv[1]
+def show(rev):
+    return json.loads(subprocess.run(["git", "show", rev + ":known_findings.json"], capture_output=True, text=True).stdout)
+base_rev = subprocess.run(["git", "merge-base", "HEAD", br], capture_output=True, text=True).stdout.strip()
+ours, theirs, base = show("HEAD"), show(br), show(base_rev)
+bi = {f["id"]: f for f in base["findings"]}; ti = {f["id"]: f for f in theirs["findings"]}
+out = []
+for f in ours["findings"]:
+    i = f["id"]
+    if i in bi and i not in ti:
+        print("deleted by branch:", i); continue
+    if i in ti and i in bi and ti[i] != bi[i]:
+        print("changed by branch:", i); out.append(ti[i]); continue
+    out.append(f)
+oi = {f["id"] for f in ours["findings"]}
 for f in theirs["findings"]:
-    if f["id"] not in ids and f["id"] not in dropped:
-        ours["findings"].append(f); print("added finding", f["id"])
-fx = set(ours.get("fixed", []))
+    if f["id"] not in oi and f["id"] not in bi:
+        print("added by branch:", f["id"]); out.append(f)
+ours["findings"] = out
+bf = set(base.get("fixed", [])); of = ours.get("fixed", [])
 for x in theirs.get("fixed", []):
-    if x not in fx:
-        ours["fixed"].append(x); print("added fixed", x[:80])
+    if x not in bf and x not in of:
+        of.append(x); print("fixed line added:", x[:70])
+ours["fixed"] = of
 json.dump(ours, open("/verif/known_findings.json", "w"), indent=1, ensure_ascii=False)
 open("/verif/known_findings.json", "a").write("\n")
